@@ -79,6 +79,22 @@ Theorem C03_okb_spec : forall inputs cfg ih im same panicked,
   /\ Matchings_ok (steps_of cfg) inputs (map nat_pairs im).
 Proof. exact okb_diff_spec. Qed.
 
+(** ... and on the bare [collect_unchanged_words] and [find_lcs] cases. *)
+Theorem C03_okb_match_spec : forall l r im same panicked,
+  okb (MatchCase l r im same panicked) = true <->
+  panicked = false /\ same = true
+  /\ valid_matching (length l) (length r) (nat_pairs im)
+  /\ Forall (fun p => exists a, nth_error l (fst p) = Some a /\ nth_error r (snd p) = Some a) (nat_pairs im).
+Proof. exact okb_match_spec. Qed.
+
+Theorem C03_okb_lcs_spec : forall input res panicked,
+  okb (LcsCase input res panicked) = true <->
+  panicked = false
+  /\ StronglySorted lt2 (nat_pairs res)
+  /\ (forall q, In q (nat_pairs res) -> nth_error (map N.to_nat input) (snd q) = Some (fst q))
+  /\ (input <> [] -> res <> []).
+Proof. exact okb_lcs_spec. Qed.
+
 (** The model's hunks pass that checker. *)
 Theorem C03_model_passes_checker : forall M,
   (forall a b, valid_matching (length a) (length b) (M a b)) ->
